@@ -80,7 +80,12 @@ Theorem C09_expression_symbols : forall t kv kv', decode_expr t kv = Ok kv' ->
   end.
 Proof. exact decode_expr_symbols. Qed.
 
-(* a node is entered in the table once: a second node with the same UUID and another class is a DeserializationError *)
+(* a node is entered in the table once: a second node with the same UUID -- of whatever class -- is a
+   DeserializationError, so a table entry is never replaced and no reference can be resolved to a "second" node *)
+Theorem C09_dup_rejected : forall t u k k', tlookup t u = Some k' -> fresh t u k = Err EDeser.
+Proof. exact dup_rejected. Qed.
+
+(* in particular with another class *)
 Theorem C09_dup_other_kind : forall t u k k', tlookup t u = Some k' -> k' <> k -> fresh t u k = Err EDeser.
 Proof. exact dup_other_kind. Qed.
 
@@ -111,4 +116,5 @@ Print Assumptions C09_symbol_referent.
 Print Assumptions C09_entry_point.
 Print Assumptions C09_edge_endpoints.
 Print Assumptions C09_expression_symbols.
+Print Assumptions C09_dup_rejected.
 Print Assumptions C09_dup_other_kind.
